@@ -126,7 +126,7 @@ func runAPI(raw json.RawMessage) (interface{}, error) {
 	}
 	src := rt.Text(in.Defs)
 	out := map[string]interface{}{"src": src}
-	t, err := route.VerifNewTable(src)
+	t, err := firstTable(&in, src)
 	if err != nil {
 		out["t"] = map[string]interface{}{"error": loadErr(err)}
 		return out, nil
